@@ -56,13 +56,35 @@ def ordered_sexp(t):
     return "(struct %s)" % " ".join("(%s %s)" % (f, ordered_sexp(x)) for f, x in t[1])
 
 
+def systematic():
+    """every tricky shape in every position, two levels deep: where the printer parenthesises (a union as parameter, result,
+    content, element; a function type as a union member) and where the grammar has to choose between `(` .. `)` readings
+    (a parenthesised union, a parameter list, a tuple, the unit type)"""
+    I_, F_, S_ = ("int",), ("float",), ("str",)
+    U = ("multi", (I_, F_))
+    fn_ = lambda ps, r: ("fn", tuple(ps), r)
+    inner = [I_, U, ("void",), fn_([], I_), fn_([U], I_), fn_([I_], I_), fn_([U, I_], I_), fn_([U], U), fn_([fn_([U], I_)], I_), fn_([], U),
+             ("tup", (U, I_)), ("tup", (I_, I_)), ("arr", U), ("cell", U), ("cell", fn_([U], I_)), fn_([("tup", (I_, I_))], I_), fn_([("void",)], I_)]
+    ctx = [lambda x: x, lambda x: ("cell", x), lambda x: fn_([], x), lambda x: fn_([I_], x), lambda x: ("arr", x), lambda x: ("tup", (x, I_)),
+           lambda x: fn_([x], I_), lambda x: fn_([I_, x], S_), lambda x: ("struct", (("a", x),)),
+           lambda x: x if x[0] == "multi" else ("multi", (x, S_))]
+    out = []
+    for x in inner:
+        for c1 in ctx:
+            for c2 in ctx:
+                t = c2(c1(x))
+                if t not in out:
+                    out.append(t)
+    return out
+
+
 def run(res, tier, seed, broken_model):
     rnd = random.Random(seed)
     depth = 3 if tier == "quick" else 4
     n = 700 if tier == "quick" else 25000
     K = 5 if tier == "quick" else 20
     g = T.TypeGen(rnd, max_depth=depth)
-    types = list(T.HAND) + [g.gen() for _ in range(n)]
+    types = list(T.HAND) + systematic() + [g.gen() for _ in range(n)]
     # 1. implementation: the instance's own order + text; K prints re-parsed (its own oracle)
     lines = []
     for t in types:
